@@ -34,6 +34,7 @@ def parseApiOp (s : String) : Option ApiOp :=
   | ["fm", "exit"] => some (.setFMode .exit)
   | ["i", i, t] => do pure (.inject (← i.toNat?) t)
   | ["ia", i, m, t] => do pure (.injectAtRaw (← i.toNat?) (← parseMode m) t)
+  | ["aa", i, t] => do pure (.addInstrAt (← i.toNat?) t)
   | ["ea", i] => do pure (.emptyAlt (← i.toNat?))
   | ["cl", i, m] => do pure (.clear (← i.toNat?) (← parseMode m))
   | ["eba", i] => do pure (.emptyBlockAlt (← i.toNat?))
